@@ -17,7 +17,7 @@ import (
 
 // C20 — an envelope object reflects its last successful signing or its parsed bytes. (Engine E3: histories.)
 
-var c20Ops = []string{"sign-A", "sign-B", "sign-fail-before-signer", "sign-fail-in-signer", "sign-fail-at-timestamping", "sign-fail-after-signer", "verify", "content"}
+var c20Ops = []string{"sign-A", "sign-B", "sign-fail-before-signer", "sign-fail-in-signer", "sign-fail-at-timestamping", "sign-fail-declared-key-spec-other-than-leaf", "sign-fail-after-signer", "verify", "content"}
 
 // failingTimestamper is a tspclient.Timestamper whose authority is down: the inner envelope has already signed when it is asked.
 type failingTimestamper struct{}
@@ -98,6 +98,9 @@ func c20Scenarios(tier mc.Tier) []mc.Scenario {
 
 func c20Request(which string, st c20Start) *signature.SignRequest {
 	key := "p256-e"
+	if which == "B" {
+		key = "p384-c" // request B comes with another signer, chain and algorithm: nothing of A's may survive into B's content
+	}
 	chain := chainFor(key)
 	req := &signature.SignRequest{
 		Payload:       signature.Payload{ContentType: "application/vnd.cncf.notary.payload.v1+json", Content: []byte(`{"request":"` + which + `"}`)},
@@ -124,8 +127,15 @@ func c20Request(which string, st c20Start) *signature.SignRequest {
 		if which == "fail-in" {
 			rs.SignErr = errors.New("hsm unavailable")
 		}
+		if which == "fail-spec" {
+			// declares the key spec of request B's leaf (EC P-384) but returns the P-256 chain; the signature is valid for ES384
+			rs.Spec = signature.KeySpec{Type: signature.KeyTypeEC, Size: 384}
+		}
 		req.Signer = rs
 	} else {
+		if which == "fail-spec" {
+			which = "fail-in" // a local signer cannot declare another spec than its leaf's
+		}
 		ls, err := signature.NewLocalSigner(certs, pki.K(key).Priv)
 		if err != nil {
 			panic(mc.HarnessError{Msg: err.Error()})
@@ -250,7 +260,7 @@ func c20Body(c *mc.Ctx, st c20Start, depth int) {
 		case "verify", "content":
 			// observation only (check() performs both twice)
 		default:
-			which := map[string]string{"sign-A": "A", "sign-B": "B", "sign-fail-before-signer": "fail-before", "sign-fail-in-signer": "fail-in", "sign-fail-at-timestamping": "fail-ts", "sign-fail-after-signer": "fail-after"}[op]
+			which := map[string]string{"sign-A": "A", "sign-B": "B", "sign-fail-before-signer": "fail-before", "sign-fail-in-signer": "fail-in", "sign-fail-at-timestamping": "fail-ts", "sign-fail-declared-key-spec-other-than-leaf": "fail-spec", "sign-fail-after-signer": "fail-after"}[op]
 			req := c20Request(which, st)
 			raw, err, pan := func() (raw []byte, err error, pan any) {
 				defer func() {
